@@ -232,6 +232,7 @@ func c08Sources(r *drv.Run) ([][]byte, map[string]int) {
 	}
 	c08Openers(add)
 	c08Counts(add)
+	c08Types(add)
 	c08Nesting(add)
 	return out, counts
 }
@@ -251,7 +252,7 @@ func procProgramSource(rng *gen.Rng, i int) string {
 func C08(r *drv.Run) {
 	r.BuildWorker()
 	srcs, counts := c08Sources(r)
-	r.Rule = "sources: valid programs (hand corpus covering every production, repository examples, generated programs incl. process code) and, for each, every byte prefix and suffix, every one-token deletion/duplication/adjacent swap, every token prefix; random token soups; random bytes biased to lexer-significant characters; regex literals with arbitrary bodies, terminated and not; hostile tails pushed across a multiple of the lexer's 4096-byte read buffer by a long comment, blank run or string; sources of 2^16 .. 2^19 (thorough: 2^20) characters in eight shapes at four alignments and of exactly 2^k characters; identifier-shaped words of 1..24 bytes built from letters whose case mapping changes their length; tokens of 1 000..5 000 multi-byte characters where a parse error quotes them; plain groups and parenthesised process expressions nested 5 000 .. 400 000 deep; valid programs whose constructs nest 10 .. 500 levels deep (17 construct kinds: alternations nested left and right, groups, loops, captures, inline subroutines, regex groups and alternations, process expressions, if and loop statements); numbers of 10 to 31 digits (around 2^31, 2^32, 2^44, 2^53, 2^62, 2^63, 2^64) in twenty places that take a number without materialising it (named loops, maxima, amounts, process code); exhaustively every pair of bytes (all 65 536) after `\\x` in both quote styles, after a backslash in a string and after a backslash in a regex literal. A sample of all of these is also delivered through CompileFile - as a regular file, through a symbolic link, through a named pipe, plus /dev/null, a directory and a missing path - and must meet the same outcome as Compile on the same bytes (for the last three: program XOR printable error). Each Compile runs in a killable worker under a lexer-read budget (hook H2), a 30 CPU-second and 1.5 GiB guard; outcome classified: program XOR error, printable non-empty error, no panic, no nil hole anywhere in the AST (reflective walk) or bytecode. Every distinct source text counts once (the valid base programs are the control group that must be accepted)."
+	r.Rule = "process code whose variables change type as a loop goes round (two and three names of different types exchanged through a helper, types depending on a branch, nested swapping loops; 24 sources in transforms and predicates): answered at once; sources: valid programs (hand corpus covering every production, repository examples, generated programs incl. process code) and, for each, every byte prefix and suffix, every one-token deletion/duplication/adjacent swap, every token prefix; random token soups; random bytes biased to lexer-significant characters; regex literals with arbitrary bodies, terminated and not; hostile tails pushed across a multiple of the lexer's 4096-byte read buffer by a long comment, blank run or string; sources of 2^16 .. 2^19 (thorough: 2^20) characters in eight shapes at four alignments and of exactly 2^k characters; identifier-shaped words of 1..24 bytes built from letters whose case mapping changes their length; tokens of 1 000..5 000 multi-byte characters where a parse error quotes them; plain groups and parenthesised process expressions nested 5 000 .. 400 000 deep; valid programs whose constructs nest 10 .. 500 levels deep (17 construct kinds: alternations nested left and right, groups, loops, captures, inline subroutines, regex groups and alternations, process expressions, if and loop statements); numbers of 10 to 31 digits (around 2^31, 2^32, 2^44, 2^53, 2^62, 2^63, 2^64) in twenty places that take a number without materialising it (named loops, maxima, amounts, process code); exhaustively every pair of bytes (all 65 536) after `\\x` in both quote styles, after a backslash in a string and after a backslash in a regex literal. A sample of all of these is also delivered through CompileFile - as a regular file, through a symbolic link, through a named pipe, plus /dev/null, a directory and a missing path - and must meet the same outcome as Compile on the same bytes (for the last three: program XOR printable error). Each Compile runs in a killable worker under a lexer-read budget (hook H2), a 30 CPU-second and 1.5 GiB guard; outcome classified: program XOR error, printable non-empty error, no panic, no nil hole anywhere in the AST (reflective walk) or bytecode. Every distinct source text counts once (the valid base programs are the control group that must be accepted)."
 	r.Assumptions = []string{
 		"bounded time/memory is decided as: lexer reads <= 64*(len+8)+4096 (hook count), <= 30 CPU-seconds and <= 1.5 GiB per Compile call",
 		"a hole is a nil pointer or nil interface reachable from the returned AST, or nil bytecode",
